@@ -406,6 +406,49 @@ def r8(R, repo):
   R.check(ok, key_of(wl, 'carry collections in and out, broadcast collections in only'), wl, 'lift.while_loop must lift (carry, broadcast) in and only the carry collections out')
 
 
+@rule('C05.R10', 'K4', 3, 'jit side-effect replay: cached counter deltas are added onto the counters captured before the call; map_variables discards the init pre-pass')
+def r10(R, repo):
+  mod = repo.mod(LI)
+  f = mod.func('_restore_rng_counters')
+  maps = [x for x in astu.func_calls(f) if astu.call_tail(x) in ('map', 'tree_map') and x.args and isinstance(x.args[0], ast.Lambda)]
+  adds = [(x, y) for x in maps for y in ast.walk(x.args[0].body) if isinstance(y, ast.Call) and astu.call_tail(y) == 'add' and isinstance(y.func, ast.Attribute)]
+  key = key_of(f, 'delta.add(old): every counter recorded in the cached delta is replayed')
+  if len(adds) == 1:
+    m_, a_ = adds[0]
+    ps = [p.arg for p in m_.args[0].args.args]
+    role = {}
+    for p_, arg in zip(ps, m_.args[1:]):
+      t = astu.src(arg)
+      role[p_] = 'delta' if ('_side_effect_cache.cache' in t or (isinstance(arg, ast.Subscript) and astu.src(arg.slice) == astu.params(f.node)[1])) else ('old' if 'old' in t else '?')
+    recv = astu.src(a_.func.value)
+    argn = astu.src(a_.args[0]) if a_.args else None
+    R.judge(set(role.values()) == {'delta', 'old'} and recv in role and argn in role, role.get(recv) == 'delta' and role.get(argn) == 'old', key, (f, m_),
+            '`%s` walks the keys of the counters captured *before* the call and adds the cached delta to them (CountsHolder.add iterates over self): counters first created inside the jitted function '
+            '(e.g. those of child scopes) are dropped when the trace is served from the cache, so later draws depend on whether the cache was warm' % astu.short(a_))
+  else:
+    R.unsure(key, f, 'tree.map(lambda x, y: x.add(y)...) not found in _restore_rng_counters')
+  subs = [(x, y) for x in maps for y in ast.walk(x.args[0].body) if isinstance(y, ast.Call) and astu.call_tail(y) == 'sub' and isinstance(y.func, ast.Attribute)]
+  key = key_of(f, 'delta = new.sub(old)')
+  if len(subs) == 1:
+    m_, s_ = subs[0]
+    ps = [p.arg for p in m_.args[0].args.args]
+    role = {p_: ('old' if 'old' in astu.src(arg) else ('new' if 'new' in astu.src(arg) else '?')) for p_, arg in zip(ps, m_.args[1:])}
+    recv, argn = astu.src(s_.func.value), (astu.src(s_.args[0]) if s_.args else None)
+    R.judge(set(role.values()) == {'old', 'new'} and recv in role and argn in role, role.get(recv) == 'new' and role.get(argn) == 'old', key, (f, m_), 'the recorded delta must be new counters minus old counters, not `%s`' % astu.short(s_))
+  else:
+    R.unsure(key, f, 'tree.map(lambda old, new: new.sub(old)) not found')
+  w = mod.func('map_variables.wrapper')
+  rp = [n for n in astu.body_walk(w.node) if isinstance(n, ast.Assign) and isinstance(n.value, ast.Call) and astu.call_name(n.value) == 'repack' and isinstance(n.targets[0], ast.Tuple) and len(n.targets[0].elts) == 2]
+  key = key_of(w, 'init pre-pass: only the mapped target is taken from repack')
+  unp = [n for n in astu.body_walk(w.node) if isinstance(n, ast.Assign) and astu.src(n.value) == astu.params(w.node)[2] and isinstance(n.targets[0], ast.Tuple) and len(n.targets[0].elts) == 2]
+  if rp and len(unp) == 1:
+    other = astu.src(unp[0].targets[0].elts[1])
+    for n in rp:
+      R.check(astu.src(n.targets[0].elts[1]) != other, key, (w, n), '`%s` lets the throw-away initialisation pass overwrite `%s`, the non-mapped variable group handed to the real pass: every update to a non-mapped mutable collection is applied twice' % (astu.short(n), other), evidence=True)
+  else:
+    R.unsure(key, w, '`target, _ = repack(scopes)` not found in map_variables.wrapper')
+
+
 @rule('C05.R9', 'K8', 16, 'collection filters used by the lifting machinery are exact (in_filter is membership)')
 def r9(R, repo):
   _c14.check_in_filter(R, repo)
@@ -428,6 +471,8 @@ meta('C05',
                 "      y = branch_fn(scope, *operands)\n      return y, repack_fn(scope_fn(variable_groups, rng_groups))\n\n    pure_branches = [\n      functools.partial(branch_wrapper, branch_fn) for branch_fn in branches\n    ]\n    return jax.lax.switch(", 'C05.R1'),
          Mutant('C05-m8', TR, "      res = prewrapped_fn(cloned, *args, **kwargs)\n      self._state.reimport(cloned._state)\n      _test_transformed_return_values(res, getattr(class_fn, '__name__', None))\n      return res\n\n    core_fns = [\n      functools.partial(core_fn, prewrapped_fn, class_fn)",
                 "      res = prewrapped_fn(cloned, *args, **kwargs)\n      _test_transformed_return_values(res, getattr(class_fn, '__name__', None))\n      return res\n\n    core_fns = [\n      functools.partial(core_fn, prewrapped_fn, class_fn)", 'C05.R6'),
+         Mutant('C05-m9', LI, "        lambda x, y: x.add(y).unflat(),", "        lambda x, y: y.add(x).unflat(),", 'C05.R10', why='seed C05-C (round 2)'),
+         Mutant('C05-m10', LI, "        target, _ = repack(scopes)", "        target, variables = repack(scopes)", 'C05.R10', why='seed C05-D (round 2)'),
          Mutant('C05-b1', LI, "      scope = scope_fn(variable_groups, rng_groups)\n      y = branch_fn(scope, *operands)\n      return y, repack_fn(scope)\n\n    pure_branches = [\n      functools.partial(branch_wrapper, branch_fn) for branch_fn in branches\n    ]\n    return jax.lax.switch(",
                 "      scope = scope_fn(variable_groups, rng_groups)\n      y = branch_fn(scope, *operands)\n      out_vars = repack_fn(scope)\n      return y, out_vars\n\n    pure_branches = [\n      functools.partial(branch_wrapper, branch_fn) for branch_fn in branches\n    ]\n    return jax.lax.switch(", kind='benign'),
      ])
